@@ -661,10 +661,13 @@ theorem C34_drop_first_false :
       ∃ x ∈ gw.known, serves (dropOutdatedFirst { deleteDelay := 100, divisor := 2, ignoreDelay := 40, lag := 50, levelTie := true } midSyncWitness 0) gw x = false :=
   ⟨{ loaded := [], lastSync := 0, known := [1, 2] }, by decide, 1, by simp, by decide⟩
 
-/-- Known finding (`gateway-lost-sample-after-failed-load`): the order is right in the code, but
-    when the replacement block cannot be loaded in a sync (index-header download fails) the
-    outdated blocks are dropped all the same, and until the next sync nothing serves the source
-    samples.  `syncWithFailedLoads` is that behaviour; it is not a step of the model. -/
+/-- What happens under a fault OUTSIDE the property's quantifier (recorded, not claimed): C34 ranges
+    over interleavings of compactor steps and gateway syncs with bounded lag; a gateway that cannot
+    load a block of its view is not among them.  The order in the code is right, but when the
+    replacement block cannot be loaded in a sync (index-header download fails) the outdated blocks
+    are dropped all the same, and until the next sync nothing serves the source samples.
+    `syncWithFailedLoads` is that behaviour; it is not a step of the model.  The harness generates
+    it (mode `failonce`) and counts the outcome as an observation. -/
 theorem C34_failed_load_false :
     ∃ gw ∈ (syncWithFailedLoads { deleteDelay := 100, divisor := 2, ignoreDelay := 40, lag := 50, levelTie := true } midSyncWitness 0 [3]).gws,
       ∃ x ∈ gw.known, serves (syncWithFailedLoads { deleteDelay := 100, divisor := 2, ignoreDelay := 40, lag := 50, levelTie := true } midSyncWitness 0 [3]) gw x = false :=
